@@ -514,3 +514,299 @@ Proof.
 Qed.
 
 End Level1.
+
+(* ---- the values read are the adjusted raw counter at the emitted timestamps ---- *)
+
+Definition vals (l : list (Z * Z)) : list Z := map snd l.
+Definition upto (t : Z) (d : list (Z * Z)) : list (Z * Z) := filter (fun s => fst s <=? t) d.
+
+Lemma adj_at_upto d t : adj_at d t = adj (vals (upto t d)).
+Proof. reflexivity. Qed.
+
+Lemma upto_all t l : Forall (fun s : Z * Z => fst s <= t) l -> upto t l = l.
+Proof. intros H. apply filter_all. eapply Forall_impl; [|exact H]. intros s Hs. apply Z.leb_le. exact Hs. Qed.
+
+Lemma upto_none t l : Forall (fun s : Z * Z => t < fst s) l -> upto t l = [].
+Proof. intros H. apply filter_none. eapply Forall_impl; [|exact H]. intros s Hs. apply Z.leb_gt. exact Hs. Qed.
+
+Lemma upto_app t l1 l2 : upto t (l1 ++ l2) = upto t l1 ++ upto t l2.
+Proof. apply filter_app. Qed.
+
+(* base value after the first sample of a chunk *)
+Definition base (P : list Z) (v0 : Z) : Z :=
+  match P with [] => v0 | _ => adj P + step (last P 0) v0 end.
+
+Lemma base_adj P v0 : base P v0 = adj (P ++ [v0]).
+Proof. destruct P as [|x P']; [reflexivity|]. unfold base. rewrite adj_snoc by discriminate. reflexivity. Qed.
+
+Lemma adj_join P v0 tl : adj (P ++ v0 :: tl) = base P v0 + (adj (v0 :: tl) - v0).
+Proof.
+  rewrite base_adj. replace (P ++ v0 :: tl) with ((P ++ [v0]) ++ tl) by (rewrite <- app_assoc; reflexivity).
+  rewrite adj_app by (destruct P; discriminate). rewrite last_last.
+  cbn [adj]. rewrite (adj_from_total tl v0 v0). lia.
+Qed.
+
+(* windows of one batch: later windows lie strictly after earlier labels *)
+Fixpoint sep_windows (ws : list (Z * list (Z * Z))) : Prop :=
+  match ws with
+  | [] => True
+  | g :: r => Forall (fun g' : Z * list (Z * Z) => Forall (fun s' => fst g < fst s') (snd g')) r /\ sep_windows r
+  end.
+
+Section Adj.
+Variable res : Z.
+Hypothesis res_pos : 0 < res.
+
+Lemma batch_sep_windows b : good_batch b -> sep_windows (batch_windows cw res b).
+Proof.
+  intros Hg. destruct (batch_windows_facts cw res (cw_ge res res_pos) (cw_same res res_pos) b Hg)
+    as (_ & Bok & _ & Bcs & _).
+  induction (batch_windows cw res b) as [|g r IH]; [exact I|].
+  apply Forall_cons_iff in Bok as [Hgok Bok]. cbn [map] in Bcs. apply StronglySorted_inv in Bcs as [Bcs Hlt].
+  cbn [sep_windows]. split; [|apply IH; assumption].
+  rewrite Forall_forall. intros g' Hin. rewrite Forall_forall. intros s' Hs'.
+  rewrite Forall_forall in Bok. destruct (Bok g' Hin) as (_ & _ & A). rewrite Forall_forall in A.
+  destruct (A s' Hs') as (H0 & _ & Ecw).
+  rewrite Forall_map, Forall_forall in Hlt. specialize (Hlt g' Hin). cbv beta in Hlt.
+  destruct Hgok as (_ & Hg0 & _).
+  destruct (Z_lt_le_dec (fst g) (fst s')) as [H|H]; [exact H|exfalso].
+  pose proof (cw_mono cw res (cw_ge res res_pos) (cw_same res res_pos) (fst s') (fst g) H0 H). lia.
+Qed.
+
+(* inner induction over the windows of one batch *)
+Lemma windows_upto (Dpre Dpost : list (Z * Z)) : forall ws acc,
+  Forall (fun g : Z * list (Z * Z) => Forall (fun s => fst s <= fst g) (snd g)) ws ->
+  StronglySorted Z.lt (map fst ws) -> sep_windows ws ->
+  Forall (fun g : Z * list (Z * Z) => Forall (fun s => fst s <= fst g) (Dpre ++ acc)) ws ->
+  Forall (fun g : Z * list (Z * Z) => Forall (fun s => fst g < fst s) Dpost) ws ->
+  Forall2 (fun (g : Z * list (Z * Z)) p =>
+             vals (upto (fst g) (Dpre ++ (acc ++ concat (map snd ws)) ++ Dpost)) = vals Dpre ++ p)
+          ws (prefixes (vals acc) ws).
+Proof.
+  induction ws as [|g r IH]; intros acc Hin Hs Hsep Hbefore Hafter; [constructor|].
+  apply Forall_cons_iff in Hin as [Hg Hin]. cbn [map] in Hs. apply StronglySorted_inv in Hs as [Hs Hlab].
+  destruct Hsep as [Hsg Hsep]. apply Forall_cons_iff in Hbefore as [Hbg Hbefore].
+  apply Forall_cons_iff in Hafter as [Hag Hafter].
+  cbn [prefixes]. constructor.
+  - cbn [map concat]. rewrite !upto_app.
+    apply Forall_app in Hbg as [Hb1 Hb2].
+    rewrite (upto_all _ Dpre Hb1), (upto_all _ acc Hb2), (upto_all _ (snd g) Hg).
+    rewrite (upto_none _ (concat (map snd r))), (upto_none _ Dpost Hag).
+    + rewrite !app_nil_r. unfold vals. rewrite !map_app. reflexivity.
+    + apply Forall_concat. rewrite Forall_map. exact Hsg.
+  - replace (acc ++ concat (map snd (g :: r))) with ((acc ++ snd g) ++ concat (map snd r))
+      by (cbn [map concat]; rewrite app_assoc; reflexivity).
+    replace (vals acc ++ map snd (snd g)) with (vals (acc ++ snd g)) by (unfold vals; rewrite map_app; reflexivity).
+    apply IH; try assumption.
+    rewrite Forall_forall. intros g' Hg'. rewrite app_assoc. apply Forall_app. split.
+    + rewrite Forall_forall in Hbefore. apply Hbefore. exact Hg'.
+    + rewrite Forall_map, Forall_forall in Hlab. specialize (Hlab g' Hg'). cbv beta in Hlab.
+      eapply Forall_impl; [|exact Hg]. intros s Hs'; cbv beta in Hs'. lia.
+Qed.
+
+End Adj.
+
+Lemma prefixes_last : forall ws pre, ws <> [] ->
+  last (prefixes pre ws) [] = pre ++ vals (concat (map snd ws)).
+Proof.
+  induction ws as [|g r IH]; intros pre Hne; [congruence|]. cbn [prefixes map concat].
+  destruct r as [|g' r'].
+  - cbn. unfold vals. rewrite app_nil_r. reflexivity.
+  - rewrite last_cons. rewrite (last_default _ (pre ++ map snd (snd g)) []) by (cbn; discriminate).
+    rewrite IH by discriminate. unfold vals. rewrite map_app, app_assoc. reflexivity.
+Qed.
+
+Lemma prefixes_hd v0 : forall ws pre tl, pre = v0 :: tl ->
+  Forall (fun p : list Z => exists tl', p = v0 :: tl') (prefixes pre ws).
+Proof.
+  induction ws as [|g r IH]; intros pre tl ->; [constructor|]. cbn [prefixes app].
+  constructor; [eexists; reflexivity|]. eapply IH. reflexivity.
+Qed.
+
+Lemma mids_pairs (R : Z * list (Z * Z) -> list Z -> Prop) : forall ws ps,
+  Forall2 R ws ps -> forall mids : list (Z * Z), map fst mids = map fst ws -> map snd mids = map adj ps ->
+  Forall (fun m => exists g p, fst m = fst g /\ snd m = adj p /\ R g p /\ In p ps) mids.
+Proof.
+  induction 1 as [|g p ws ps Hgp _ IH]; intros mids Hf Hs; destruct mids as [|m mids]; try discriminate; [constructor|].
+  cbn [map] in Hf, Hs. injection Hf as Hf1 Hf. injection Hs as Hs1 Hs.
+  constructor; [exists g, p; repeat split; try assumption; left; reflexivity|].
+  eapply Forall_impl; [|apply IH; assumption]. intros m' (g' & p' & A & B & C & D).
+  exists g', p'. repeat split; try assumption. right. exact D.
+Qed.
+
+Section Adj2.
+Variable res : Z.
+Hypothesis res_pos : 0 < res.
+
+Lemma batch_emits (Dpre Dpost b : list (Z * Z)) :
+  counter_batch b ->
+  (forall s s', In s Dpre -> In s' b -> fst s < fst s') ->
+  (forall s s', In s b -> In s' Dpost -> cw (fst s) res < fst s') ->
+  let d := Dpre ++ b ++ Dpost in
+  let q := q_of res b in
+  let B := base (vals Dpre) (q_v0 q) in
+  Forall (fun s => snd s = adj_at d (fst s)) ((q_t0 q, B) :: emit_mids (q_t0 q) (q_v0 q) B (q_mids q)) /\
+  B + (q_clast q - q_v0 q) = adj (vals Dpre ++ vals b) /\ q_vl q = last (vals Dpre ++ vals b) 0.
+Proof.
+  intros Hcb Hpre Hpost. cbv zeta. pose proof Hcb as (Hg & Hstrict & Hval). pose proof Hg as [Hne [Hs Hnn]].
+  destruct (q_of_ok res res_pos b Hcb) as (_ & _ & _ & Ems).
+  destruct (batch_windows_facts cw res (cw_ge res res_pos) (cw_same res res_pos) b Hg)
+    as (Bcat & Bok & Bsort & _ & Bne & _ & BF & _).
+  assert (Emf : map fst (q_mids (q_of res b)) = map fst (batch_windows cw res b)).
+  { unfold q_of, proj. cbn [q_mids]. rewrite map_map. cbn [fst].
+    apply (Forall2_map_eq _ _ _ _ _ BF). intros x y [H _]. exact H. }
+  pose proof (batch_sep_windows res res_pos b Hg) as Hsepw.
+  set (bw := batch_windows cw res b) in *.
+  destruct b as [|[t0 v0] b']; [congruence|].
+  unfold q_of in *. cbn [q_t0 q_v0 q_mids q_vl hd fst snd] in *.
+  (* every sample of the batch is at or after t0; the others strictly after *)
+  assert (Hb' : Forall (fun s : Z * Z => t0 < fst s) b').
+  { cbn [map] in Hstrict. apply StronglySorted_inv in Hstrict as [_ H]. rewrite Forall_map in H. exact H. }
+  assert (Hball : forall s, In s ((t0, v0) :: b') -> t0 <= fst s).
+  { intros s [<-|Hin]; [cbn; lia|]. rewrite Forall_forall in Hb'. specialize (Hb' s Hin). lia. }
+  assert (Ht0 : 0 <= t0) by (apply Forall_cons_iff in Hnn as [H _]; exact H).
+  assert (Hin_b : forall g s, In g bw -> In s (snd g) -> In s ((t0, v0) :: b')).
+  { intros g s Hg' Hs'. rewrite <- Bcat. eapply in_concat_map_snd; eassumption. }
+  (* conditions of windows_upto *)
+  assert (C1 : Forall (fun g : Z * list (Z * Z) => Forall (fun s => fst s <= fst g) (snd g)) bw).
+  { eapply Forall_impl; [|exact Bok]. intros g (_ & _ & A). eapply Forall_impl; [|exact A]. intros s (_ & H & _). exact H. }
+  assert (C4 : Forall (fun g : Z * list (Z * Z) => Forall (fun s => fst s <= fst g) (Dpre ++ [])) bw).
+  { rewrite app_nil_r. rewrite Forall_forall. intros g Hg'. rewrite Forall_forall. intros s Hs'.
+    rewrite Forall_forall in Bok. destruct (Bok g Hg') as (Hgne & _ & A).
+    destruct (snd g) as [|s1 l1] eqn:Eg; [congruence|]. apply Forall_cons_iff in A as [(_ & H1 & _) _].
+    assert (In s1 ((t0, v0) :: b')) by (apply (Hin_b g); [exact Hg'|rewrite Eg; left; reflexivity]).
+    specialize (Hpre s s1 Hs' H). lia. }
+  assert (C5 : Forall (fun g : Z * list (Z * Z) => Forall (fun s => fst g < fst s) Dpost) bw).
+  { rewrite Forall_forall. intros g Hg'. rewrite Forall_forall. intros s' Hs'.
+    rewrite Forall_forall in Bok. destruct (Bok g Hg') as (Hgne & Hg0 & A).
+    destruct (snd g) as [|s1 l1] eqn:Eg; [congruence|]. apply Forall_cons_iff in A as [(_ & _ & Ecw) _].
+    assert (In s1 ((t0, v0) :: b')) by (apply (Hin_b g); [exact Hg'|rewrite Eg; left; reflexivity]).
+    specialize (Hpost s1 s' H Hs'). pose proof (cw_ge res res_pos _ Hg0). lia. }
+  pose proof (windows_upto Dpre Dpost bw [] C1 Bsort Hsepw C4 C5) as WU.
+  cbn [app] in WU. rewrite Bcat in WU. change (vals []) with (@nil Z) in WU.
+  (* all prefixes start with v0 *)
+  assert (Hhd : Forall (fun p : list Z => exists tl', p = v0 :: tl') (prefixes [] bw)).
+  { destruct bw as [|[w1 c1] bwr]; [constructor|].
+    cbn [map concat snd] in Bcat. destruct c1 as [|s1 c1r].
+    - rewrite Forall_forall in Bok. destruct (Bok _ (or_introl eq_refl)) as (H & _). cbn in H. congruence.
+    - cbn [app] in Bcat. injection Bcat as -> _. cbn [prefixes app map snd].
+      constructor; [eexists; reflexivity|]. eapply prefixes_hd. reflexivity. }
+  split; [|split].
+  - constructor.
+    + (* the first raw sample of the chunk *)
+      cbn [fst snd]. rewrite adj_at_upto. rewrite !upto_app.
+      rewrite (upto_all t0 Dpre) by (rewrite Forall_forall; intros s Hs'; specialize (Hpre s (t0, v0) Hs' (or_introl eq_refl)); cbn in Hpre; lia).
+      cbn [upto filter fst]. rewrite Z.leb_refl. fold (upto t0 b').
+      rewrite (upto_none t0 b' Hb').
+      rewrite (upto_none t0 Dpost)
+        by (rewrite Forall_forall; intros s' Hs'; specialize (Hpost (t0, v0) s' (or_introl eq_refl) Hs');
+            cbn in Hpost; pose proof (cw_ge res res_pos t0 Ht0); lia).
+      cbn [app]. unfold vals. rewrite map_app. cbn [map snd]. rewrite base_adj. reflexivity.
+    + (* the per-window values *)
+      pose proof (mids_pairs _ _ _ WU _ Emf Ems) as MP.
+      unfold emit_mids. rewrite Forall_forall. intros s Hs'. apply in_flat_map in Hs' as (m & Hm & Hs').
+      rewrite Forall_forall in MP. destruct (MP m Hm) as (g & p & Ef & Es & HR & Hp).
+      destruct (fst m >? t0); [|contradiction]. destruct Hs' as [<-|[]]. cbn [fst snd].
+      rewrite adj_at_upto, Ef, HR, Es.
+      rewrite Forall_forall in Hhd. destruct (Hhd p Hp) as (tl' & ->).
+      rewrite adj_join. reflexivity.
+  - (* total after the chunk *)
+    unfold q_clast. cbn [q_mids q_v0]. rewrite Ems.
+    assert (El : last (map adj (prefixes [] bw)) v0 = adj (vals ((t0, v0) :: b'))).
+    { assert (Hpne : prefixes [] bw <> []) by (destruct bw; [congruence|discriminate]).
+      rewrite (last_default _ v0 (adj [])) by (destruct (prefixes [] bw); [congruence|discriminate]).
+      rewrite last_map. rewrite prefixes_last by exact Bne. rewrite Bcat. reflexivity. }
+    rewrite El. cbn [vals map snd]. rewrite adj_join. reflexivity.
+  - unfold vals. rewrite <- map_app.
+    change 0 with (snd (0, 0)). rewrite last_map. f_equal.
+    rewrite last_app_ne by discriminate. reflexivity.
+Qed.
+
+End Adj2.
+
+Definition prev_of (Dpre : list (Z * Z)) : option (Z * Z) :=
+  match vals Dpre with [] => None | _ => Some (last (vals Dpre) 0, adj (vals Dpre)) end.
+
+Lemma expect_adj res : 0 < res -> forall batches Dpre,
+  Forall counter_batch batches -> seps cw res batches ->
+  (forall s s', In s Dpre -> In s' (concat batches) -> fst s < fst s') ->
+  Forall (fun s => snd s = adj_at (Dpre ++ concat batches) (fst s))
+         (expect (prev_of Dpre) (map (q_of res) batches)).
+Proof.
+  intros Hr. induction batches as [|b rest IH]; intros Dpre Hcb Hsep Hpre; [constructor|].
+  apply Forall_cons_iff in Hcb as [Hb Hcb]. destruct Hsep as [Hcross Hsep].
+  cbn [map expect concat].
+  assert (Hpre_b : forall s s', In s Dpre -> In s' b -> fst s < fst s').
+  { intros s s' Hs Hs'. apply Hpre; [exact Hs|]. cbn [concat]. apply in_or_app. left. exact Hs'. }
+  assert (Hpost : forall s s', In s b -> In s' (concat rest) -> cw (fst s) res < fst s').
+  { intros s s' Hs Hs'. rewrite Forall_forall in Hcross. specialize (Hcross s Hs).
+    rewrite Forall_forall in Hcross. apply Hcross. exact Hs'. }
+  destruct (batch_emits res Hr Dpre (concat rest) b Hb Hpre_b Hpost) as (E1 & E2 & E3).
+  assert (EB : match prev_of Dpre with
+               | None => q_v0 (q_of res b)
+               | Some (Lv, Tot) => Tot + step Lv (q_v0 (q_of res b))
+               end = base (vals Dpre) (q_v0 (q_of res b))).
+  { unfold prev_of, base. destruct (vals Dpre); reflexivity. }
+  rewrite EB. apply Forall_app. split; [exact E1|].
+  assert (EP : Some (q_vl (q_of res b), base (vals Dpre) (q_v0 (q_of res b)) + (q_clast (q_of res b) - q_v0 (q_of res b)))
+               = prev_of (Dpre ++ b)).
+  { assert (EV : vals (Dpre ++ b) = vals Dpre ++ vals b) by (unfold vals; apply map_app).
+    unfold prev_of. rewrite EV.
+    destruct Hb as ([Hne _] & _ & _).
+    destruct (vals Dpre ++ vals b) eqn:E.
+    - apply app_eq_nil in E as [_ E]. destruct b; [congruence|discriminate].
+    - rewrite E2, E3. reflexivity. }
+  rewrite EP. rewrite app_assoc.
+  replace (Dpre ++ b ++ concat rest) with ((Dpre ++ b) ++ concat rest) by (rewrite app_assoc; reflexivity).
+  apply IH; [exact Hcb|exact Hsep|].
+  intros s s' Hs Hs'. apply in_app_or in Hs as [Hs|Hs].
+  - apply Hpre; [exact Hs|]. cbn [concat]. apply in_or_app. right. exact Hs'.
+  - specialize (Hpost s s' Hs Hs'). destruct Hb as ([_ [_ Hnn]] & _ & _).
+    rewrite Forall_forall in Hnn. pose proof (cw_ge res Hr _ (Hnn s Hs)). lia.
+Qed.
+
+(* Level 1: reading the counter aggregate of DownsampleRaw's output yields, at every emitted
+   timestamp, the raw counter adjusted for all resets up to the last raw sample at or before it *)
+Lemma level1_exact res nc data :
+  valid_counter res data ->
+  exists l1 emitted,
+    level1 res nc data = Some l1 /\ read_counter l1 = Some emitted /\
+    Forall (fun s => snd s = adj_at (keep_nonnan data) (fst s)) emitted.
+Proof.
+  intros Hv. pose proof Hv as (Hr & _ & _).
+  destruct (level1_read res Hr nc data Hv) as (batches & E & Hcat & Hcb & Hsep & R).
+  exists (map (float_batch cw res) batches), (expect None (map (q_of res) batches)).
+  split; [exact E|]. split; [exact R|].
+  pose proof (expect_adj res Hr batches [] Hcb Hsep ltac:(intros s s' [])) as A.
+  cbn [app] in A. rewrite Hcat in A. exact A.
+Qed.
+
+Lemma valid_input_counter res1 res2 data : valid_input res1 res2 data = true -> valid_counter res1 data.
+Proof.
+  unfold valid_input. intros H. apply andb_true_iff in H as [H Hinc]. apply andb_true_iff in H as [H Hall].
+  apply andb_true_iff in H as [Hr1 _]. apply Z.ltb_lt in Hr1. split; [exact Hr1|]. split.
+  - clear - Hinc. induction (map fst data) as [|a l IH]; [constructor|].
+    assert (Hl : strictly_inc l = true /\ Forall (Z.lt a) l).
+    { clear IH. revert a Hinc. induction l as [|b l IHl]; intros a Hinc; [split; [reflexivity|constructor]|].
+      change (strictly_inc (a :: b :: l)) with ((a <? b) && strictly_inc (b :: l)) in Hinc.
+      apply andb_true_iff in Hinc as [Hab Hinc]. apply Z.ltb_lt in Hab.
+      split; [exact Hinc|]. constructor; [lia|]. destruct (IHl b Hinc) as [_ F].
+      eapply Forall_impl; [|exact F]. intros x Hx; cbv beta in Hx. lia. }
+    destruct Hl as [Hl F]. constructor; [apply IH; exact Hl|exact F].
+  - rewrite forallb_forall in Hall. rewrite Forall_forall. intros s Hs. specialize (Hall s Hs).
+    apply andb_true_iff in Hall as [Hall Hv]. apply andb_true_iff in Hall as [A B].
+    apply Z.leb_le in A. apply Z.leb_le in B. split; [lia|].
+    destruct (snd s); [apply Z.leb_le; exact Hv|exact I].
+Qed.
+
+Lemma level1_values res1 res2 nc data :
+  valid_input res1 res2 data = true ->
+  exists l1 emitted,
+    level1 res1 nc data = Some l1 /\ read_counter l1 = Some emitted /\
+    values_ok (keep_nonnan data) emitted = true.
+Proof.
+  intros Hv. destruct (level1_exact res1 nc data (valid_input_counter _ _ _ Hv)) as (l1 & em & E & R & A).
+  exists l1, em. split; [exact E|]. split; [exact R|].
+  unfold values_ok. apply forallb_forall. intros s Hs. rewrite Forall_forall in A.
+  apply Z.eqb_eq. apply A. exact Hs.
+Qed.
